@@ -30,6 +30,7 @@ from ..type import (
     assert_leaf_type,
     is_enum_type,
     is_input_object_type,
+    is_leaf_type,
     is_list_type,
     is_non_null_type,
     is_required_input_field,
@@ -174,6 +175,9 @@ def validate_input_value_impl(
                         get_one_of_input_object_error_message(type_),
                         Path(path, field_name, type_.name),
                     )
+    elif not is_leaf_type(type_):
+        # Not an input type (reported by the schema validation), cannot be validated.
+        return
     else:
         assert_leaf_type(type_)
 
@@ -438,6 +442,9 @@ def validate_input_literal_impl(
                     value_node,
                     Path(path, field_name, None),
                 )
+    elif not is_leaf_type(type_):
+        # Not an input type (reported by the schema validation), cannot be validated.
+        return
     else:
         leaf_type = assert_leaf_type(type_)
 
